@@ -132,7 +132,6 @@ def observe(recipe, backend):
                 if backend == "numpy":
                     add("C02", "order:%s:%s|%s" % (k, min(w[1], v[k][1]), max(w[1], v[k][1])),
                         "%s_type depends on the supply order of the types: %s vs %s" % (k, v[k][1], w[1]))
-                    continue
                 # A = parent closure of the first answer (a parent-closed subset of B = the same types, other order)
                 # (the types on the first order's path and their identity ancestors)
                 p1 = outcome(lambda: [str(q) for q in (ts.detect(x) if k == "detect" else ts.infer(x))[1]])
@@ -298,7 +297,7 @@ NP_POOLS = {
     # numpy scalars and pandas timestamps inside object arrays
     "objnp": [["npint", 1, "int64"], ["npint", 3, "int32"], ["npint", 2, "uint8"], ["int", 1], ["none"], ["npfloat", 1.5], ["npfloat", 2.0],
               ["npbool", True], ["bool", False], ["npstr", "a"], ["str", "b"], ["pyts", "2020-01-01"], ["dt", "2020-01-01T00:00:00"],
-              ["npdt", "2020-01-01"], ["float", 2.0]],
+              ["npdt", "2020-01-01"], ["float", 2.0], ["td", 5], ["td", 86400], ["pytd", 3], ["nptd", 1]],
 }
 
 LIST_POOL = G.OBJ_POOL + [["none"], ["nan"], ["str", ""], ["str", "true"], ["str", "false"], ["str", "1.5"], ["str", "2"],
@@ -322,6 +321,8 @@ def _gv(r):
         return np.str_(r[1])
     if r[0] == "pyts":
         return pd.Timestamp(r[1])
+    if r[0] == "pytd":
+        return pd.Timedelta(hours=r[1])
     return None
 
 
@@ -365,7 +366,7 @@ def gen(rng, backend):
             kind = base[0]
             near = [b for b in NP_POOLS["objnp"] if b[0] in (kind, "none", {"npint": "int", "int": "npint", "npfloat": "float", "float": "npfloat",
                                                                             "npbool": "bool", "bool": "npbool", "npstr": "str", "str": "npstr",
-                                                                            "pyts": "dt", "dt": "pyts"}.get(kind, kind))]
+                                                                            "pyts": "dt", "dt": "pyts", "td": "pytd", "pytd": "td"}.get(kind, kind))]
             vals = [rng.choice(near) for _ in range(max(n, 1))]
         if k in ("obj", "objnp") or rng.random() < 0.15:
             r["npdtype"] = "object"
@@ -424,6 +425,8 @@ def run_backend(tier, seed, backend, n=None, nproc=16):
                         {"values": [["int", 1], ["npint", 3, "int32"]], "npdtype": "object", "stream": "corpus:int-then-np-int"},
                         {"values": [["pyts", "2020-01-01"], ["dt", "2020-01-01T00:00:00"]], "npdtype": "object", "stream": "corpus:timestamp-datetime"},
                         {"values": [["bytes", "ab"], ["bytes", "c"]], "stream": "corpus:bytes-dtype"},
+                        {"values": [["td", 86400], ["td", 10800]], "npdtype": "object", "stream": "corpus:timedelta-objects"},
+                        {"values": [["pytd", 3], ["td", 5]], "npdtype": "object", "stream": "corpus:pd-timedelta-objects"},
                         {"values": [["str", "nan"]] * 5 + [["str", "1.5"]], "stream": "corpus:nan-strings-then-number"},
                         {"values": [["str", "NaN"]] * 6 + [["str", "2"], ["str", "3"]], "npdtype": "object", "stream": "corpus:nan-strings-then-ints"}],
               "list": [{"values": [["bool", False], ["str", "1.5"]], "stream": "corpus:fixed-F22b"},
